@@ -1,5 +1,7 @@
 import PgsVerif.Props.C01
 import PgsVerif.Proofs.HydrateSpec
+import PgsVerif.Proofs.OwnersNodup
+import PgsVerif.Model.AstSem2
 /-!
 # C03 — every type reference resolves to the declared entity with the right shape
 
@@ -92,6 +94,18 @@ theorem C03_ext_resolves (w : World) (hv : Valid w) : ∀ x ∈ allExts 0 w.file
 theorem C03_not_failed (w : World) (hv : Valid w) : (c03Model w).failed = false := by
   obtain ⟨g, hg, _⟩ := C01_no_failure w hv
   simp [c03Model, hg]
+
+/-- **C03 (the type of THAT field)**: fields and extensions have pairwise distinct references
+    (`owners_nodup`), so asking the built graph for the type of a field / extension by reference
+    answers the declarative type of that very field / extension. -/
+theorem C03_type_of (w : World) (hv : Valid w) (g : Graph) (hg : hydrate w = .ok g) :
+    ∀ x ∈ allFields w ++ allExts 0 w.files, g.ftype? x.1 = some (specType w x.2) := by
+  obtain ⟨g', hg', ht, _, _⟩ := C03_graph w hv
+  rw [hg] at hg'; cases hg'
+  intro x hx
+  unfold Graph.ftype?
+  rw [ht, find_of_nodup (specType w) _ (owners_nodup w) x hx]
+  rfl
 
 end Pgs.AST
 
